@@ -166,7 +166,7 @@ def run(ctx, variants=(("verif", "c04"), ("verif,unsafe", "c04u"))):
         bigmsgs = ("syncgroup_Response", "saslauthenticate_Response", "metadata_Response", "createacls_Response", "describegroups_Response", "joingroup_Response")
         pick = [p for p in parsed if p[0][0].isdigit() and int(p[0][0]) < len(names) and names[int(p[0][0])] in bigmsgs]
         seenb = set()
-        if ctx.tier != "thorough":      # quick: lowest and highest version of each picked message
+        if True:                        # lowest and highest version of each picked message (thorough: both delivery sizes for all)
             vers = {}
             for p in pick:
                 vers.setdefault(p[0][0], []).append(int(p[0][1]))
